@@ -399,7 +399,9 @@ var zzC07Findings = []zzC07Finding{
 	{"C07-go-backward-lost", zzC07Keys(zzTagForms, []string{"stmt"}, []string{"goback"})},
 	// a go whose tag belongs to an outer tagbody is dropped by block, by a function body and by every inner tagbody/loop body
 	{"C07-go-outward-lost", append(zzC07Keys(zzTagForms, []string{"stmt"}, []string{"go"}),
-		append(zzC07Keys([]string{"block"}, []string{"mid"}, []string{"go"}), zzC07Keys([]string{"lambda"}, []string{"mid"}, []string{"go"})...)...)},
+		zzC07Keys([]string{"block"}, []string{"mid"}, []string{"go"})...)},
+	// what is left of it after 4ea27c0: a function body ignores a go marker
+	{"C07-go-out-of-function-lost", zzC07Keys([]string{"lambda"}, []string{"mid"}, []string{"go"})},
 	{"C07-do-drops-named-return", []string{"do/stmt/ret-named-nonblock"}},
 	// ignore-errors, with-mutex-lock, recover and the cleanup forms of unwind-protect continue after an exit
 	{"C07-body-continues-after-exit", append(zzC07Keys([]string{"ignore-errors", "with-mutex-lock", "recover", "with-open-file"}, []string{"mid"}, zzRG),
